@@ -349,6 +349,9 @@ fn quiet_panics() {
         }).unwrap_or(false);
         if !from_library {
             eprintln!("{}", info);
+            if std::env::var_os("VERIF_BACKTRACE").is_some() {
+                eprintln!("{}", std::backtrace::Backtrace::force_capture());
+            }
         }
     }));
 }
